@@ -17,7 +17,7 @@ RULE = ("generated driver classes whose event handlers are produced from a handl
         "changes on elements with refreshing Read handlers; run inside an event loop and drained after each operation. One "
         "sequence-numbered trace holds handler invocations (with the element's stored value at that instant), publications reaching "
         "a recording client and operation boundaries; the oracle derives the required counts/phases from the configuration. "
-        "non-trivial = an operation on an element that has at least one handler; distinct = hash(configuration, operation index)")
+        "In every third single-instance case the driver's public name comes from an overridden name property (constructor given nothing or an unrelated label). non-trivial = an operation on an element that has at least one handler; distinct = hash(configuration, operation index)")
 ASSUMPTIONS = ["no order is demanded between publication and Change handlers, nor among handlers of one phase",
                "Change events for sibling switches flipped by a rule are not demanded; for BLOBs only 'changed bytes => Change'",
                "Element._value is read inside handler probes (the public .value would itself raise a Read event)"]
